@@ -10,6 +10,8 @@
 (*               retv / got : value the callee returned and value the caller received, *)
 (*               before / after : %rbx %rbp %r12 %r13 %r14 %r15 %rsp around the call  *)
 (* kind "caller" a native call  ppci-compiled caller -> assembly spy callee:         *)
+(*               (directly, or through a pointer table in initialised data with copies *)
+(*               of the arguments kept live across the call: field kept)              *)
 (*               passed : argument words, snap : registers and stack on entry to the *)
 (*               callee (X64Abi.ArgIsAt), retv : eightbyte the spy left in %rax and   *)
 (*               %xmm0, got : value the ppci caller stored, before / after as above   *)
@@ -62,7 +64,10 @@ StackAligned == (Is("caller") /\ Completed) => R.snap.rsp16 = 0
 \* the caller receives the value returned (an eightbyte in %rax / %xmm0, used at the width of the return type)
 ReturnArrives == Completed => (IF R.rty = "" THEN TRUE ELSE R.got = Low(R.retv, SizeOf(R.rty)))
 CalleeSavedPreserved == Completed => Len(R.before) = Len(CalleeSaved) /\ R.after = R.before
+\* the callee may destroy every caller-saved register (the spy does): values the caller keeps across the call
+\* (copies of the arguments, stored after the call returned) are unchanged
+LiveValuesSurvive == (Is("caller") /\ Completed /\ "kept" \in DOMAIN R) => R.kept = R.passed
 
 Conforms == LocationsConform /\ ReturnLocationConforms /\ CallCompletes /\ ArgsArrive /\ ArgsPlaced
-            /\ StackAligned /\ ReturnArrives /\ CalleeSavedPreserved
+            /\ StackAligned /\ ReturnArrives /\ CalleeSavedPreserved /\ LiveValuesSurvive
 =============================================================================
